@@ -1,9 +1,16 @@
 /-
   C06 — the device description read by the client equals the device's configuration.
   Property theorems only (helper lemmas in Lemmas/).
-  Names are UTF-8 byte strings (the harness encodes text); "no NUL" is a hypothesis on the bytes.
+  Names are byte strings on the wire.  The client decodes the whole name field as strict UTF-8 before
+  cutting at the first NUL (`validUtf8`, the acceptance condition of CPython's decoder; by
+  `validUtf8_iff_text` exactly "is the UTF-8 encoding of a text"), so the round trips carry the
+  hypotheses "well-formed UTF-8" and "no NUL byte"; `chinfo_rt_text` states the same for a name
+  given as a text (code points), where both hold by construction.
+  `devinfo_after_connect` composes the codecs with the handshake model: the `Device` /
+  `DeviceChannel` data the client holds after `connect()`.
 -/
 import NxsModel.Info
+import NxsModel.Describe
 import NxsModel.Spec.Wire
 import NxsModel.Lemmas.Serial
 import NxsModel.Lemmas.Info
@@ -28,23 +35,59 @@ theorem flags_derived (flags : Nat) :
     divSupported flags = flags.testBit 0 ∧ ackSupported flags = flags.testBit 1 :=
   Info.flags_derived flags
 
+/-- `validUtf8` is not an arbitrary predicate: a byte string passes exactly when it is the UTF-8
+    encoding of some text (a sequence of Unicode scalar values) -/
+theorem validUtf8_iff_text (bs : Bytes) : validUtf8 bs = true ↔ ∃ text, utf8Encode text = .ok bs :=
+  Info.validUtf8_iff_encoding bs
+
 /-- channel info: enable state, the whole 8-bit type byte, dimension, divider, metadata length and
-    the name arrive unchanged; the response is the NxScope encoding (frame id 3) -/
+    the name (well-formed UTF-8 without NUL that fits) arrive unchanged; the response is the NxScope
+    encoding (frame id 3) -/
 theorem chinfo_rt (en : Bool) (ty vdim div mlen : Nat) (name : Bytes)
     (ht : ty ≤ 255) (hv : vdim ≤ 255) (hd : div ≤ 255) (hm : mlen ≤ 255)
-    (hnul : ∀ b ∈ name, b ≠ 0) (hfit : name.length ≤ 65524) :
+    (hnul : ∀ b ∈ name, b ≠ 0) (hutf : validUtf8 name = true) (hfit : name.length ≤ 65524) :
     chinfoEncode ⟨en, ty, vdim, div, mlen, name⟩
       = .ok (wire 3 ([byte (b2n en), byte ty, byte vdim, byte div, byte mlen] ++ name)) ∧
     (Serial.frameDecode (wire 3 ([byte (b2n en), byte ty, byte vdim, byte div, byte mlen] ++ name))).bind
         chinfoDecode = .ok (some ⟨en, ty, vdim, div, mlen, name⟩) :=
-  Info.chinfo_rt en ty vdim div mlen name ht hv hd hm hnul hfit
+  Info.chinfo_rt en ty vdim div mlen name ht hv hd hm hnul hutf hfit
+
+/-- the same with the name given as a text, as the device holds it: every text of scalar values
+    without U+0000 (ASCII or not) can be encoded, and if its encoding fits in a frame the client reads
+    the same fields and a name whose encoding is that of the text -/
+theorem chinfo_rt_text (en : Bool) (ty vdim div mlen : Nat) (text : List Nat)
+    (ht : ty ≤ 255) (hv : vdim ≤ 255) (hd : div ≤ 255) (hm : mlen ≤ 255)
+    (hsc : ∀ c ∈ text, isScalar c = true) (hnul : ∀ c ∈ text, c ≠ 0) :
+    ∃ name, utf8Encode text = .ok name ∧ (name.length ≤ 65524 →
+      ((chinfoEncodeText en ty vdim div mlen text).bind Serial.frameDecode).bind chinfoDecode
+        = .ok (some ⟨en, ty, vdim, div, mlen, name⟩)) :=
+  Info.chinfo_rt_text en ty vdim div mlen text ht hv hd hm hsc hnul
 
 /-- a device may terminate / pad the name with NUL bytes: same fields -/
 theorem chinfo_trailing_nul (en ty vdim div mlen : Byte) (name : Bytes) (k : Nat)
-    (hnul : ∀ b ∈ name, b ≠ 0) :
+    (hnul : ∀ b ∈ name, b ≠ 0) (hutf : validUtf8 name = true) :
     chinfoDecode ⟨3, [en, ty, vdim, div, mlen] ++ name ++ List.replicate k 0⟩
       = .ok (some ⟨en ≠ 0, ty.toNat, vdim.toNat, div.toNat, mlen.toNat, name⟩) :=
-  Info.chinfo_trailing_nul en ty vdim div mlen name k hnul
+  Info.chinfo_trailing_nul en ty vdim div mlen name k hnul hutf
+
+/-- more generally the name ends at the first NUL whatever well-formed bytes follow it … -/
+theorem chinfo_nul_then_rest (en ty vdim div mlen : Byte) (name rest : Bytes)
+    (hnul : ∀ b ∈ name, b ≠ 0) (hutf : validUtf8 name = true) (hrest : validUtf8 rest = true) :
+    chinfoDecode ⟨3, [en, ty, vdim, div, mlen] ++ (name ++ 0 :: rest)⟩
+      = .ok (some ⟨en ≠ 0, ty.toNat, vdim.toNat, div.toNat, mlen.toNat, name⟩) :=
+  Info.chinfo_nul_then_rest en ty vdim div mlen name rest hnul hutf hrest
+
+/-- … and a name field that is not well-formed UTF-8 — wherever the bad bytes are, also after a
+    NUL — is refused with `UnicodeDecodeError` (outside the property's quantifier: not a text) -/
+theorem chinfo_invalid_utf8 (en ty vdim div mlen : Byte) (field : Bytes) (h : validUtf8 field = false) :
+    chinfoDecode ⟨3, [en, ty, vdim, div, mlen] ++ field⟩ = .error .unicodeError :=
+  Info.chinfo_invalid_utf8 en ty vdim div mlen field h
+
+/-- on the text level the cut at the first NUL byte is the cut at the first U+0000
+    (`.decode().split("\x00")[0]`): for a field that encodes `text` the name the client keeps
+    encodes `text` up to its first U+0000 -/
+theorem name_is_text_before_nul (text : List Nat) (field : Bytes) (h : utf8Encode text = .ok field) :
+    utf8Encode (text.takeWhile (· ≠ 0)) = .ok (cstr field) := Info.cstr_utf8Encode text field h
 
 /-- derived attributes: data type = low five bits, critical = top bit, reserved = bits 5,6 -/
 theorem type_derived (ty : Nat) (ht : ty ≤ 255) :
@@ -62,8 +105,74 @@ theorem wrong_kind (fid : Nat) (d : Bytes) :
     (fid ≠ 2 → cmninfoDecode ⟨fid, d⟩ = .ok none) ∧ (fid ≠ 3 → chinfoDecode ⟨fid, d⟩ = .ok none) ∧
     (fid ≠ 4 → ackDecode ⟨fid, d⟩ = .ok none) := Info.wrong_kind fid d
 
+open Nxs.Describe Nxs.Handshake in
+/-- **the description after `connect()`**.  For every device configuration within the quantifier
+    (channel count, flags, rx padding ≤ 255; per channel one-byte fields and a name that is
+    well-formed UTF-8 without NUL and fits) and a link that gives the conforming answer to every
+    request (`Resp.ok`, whatever the length of the script): the handshake ends connected, and what
+    the client has then built from the answers — each answer being the device's encoder output read
+    by `frame_decode` and the client's decoder, collected as `_devinfo_get` does — is the
+    configuration: `Device.data` = (channel count, flags, rx padding) with divider / ACK support =
+    flag bits 0 / 1, and channel `i` holds id `i` and the configured enable state, type byte,
+    dimension, divider, metadata length and name of channel `i`.
+    (`Handshake.DevDesc` itself carries only chmax/flags/rxpadding; the per-channel part and the
+    bytes of the answers are supplied by `Describe.lean`.) -/
+theorem devinfo_after_connect (cfg : DevCfg) (h : CfgOk cfg) (script : List Resp)
+    (hs : ∀ r ∈ script, r = Resp.ok) :
+    (connect cfg.desc script .ok).outcome = .connected cfg.chans.length cfg.flags cfg.rxpadding ∧
+    describe cfg (connect cfg.desc script .ok).sent
+      = .ok ⟨cfg.chans.length, cfg.flags, cfg.rxpadding, cfg.flags.testBit 0, cfg.flags.testBit 1,
+          (cfg.chans.zipIdx 0).map fun p => ⟨p.2, toInfo p.1⟩⟩ := by
+  obtain ⟨h1, h2⟩ := connect_allOk cfg.desc script hs
+  refine ⟨h1, ?_⟩
+  rw [h2, describe_requests cfg h 0, (Info.flags_derived cfg.flags).1, (Info.flags_derived cfg.flags).2,
+    clientView_eq_zipIdx]
+
+/-- the requests of that handshake: stop, common info, the padding trigger write iff the device asks
+    for an rx padding, then every channel once, in order -/
+theorem requests_after_connect (cfg : Describe.DevCfg) (script : List Handshake.Resp)
+    (hs : ∀ r ∈ script, r = Handshake.Resp.ok) :
+    (Handshake.connect cfg.desc script .ok).sent
+      = [.stop, .cmninfo] ++ (if cfg.rxpadding > 0 then [.padding cfg.rxpadding] else [])
+          ++ (List.range' 0 cfg.chans.length).map Handshake.Req.chinfo := by
+  rw [(Describe.connect_allOk cfg.desc script hs).2]
+  unfold Describe.infoRequests
+  by_cases hp : cfg.rxpadding > 0
+  · have : cfg.desc.rxpadding > 0 ∧ 0 ≠ cfg.desc.rxpadding := ⟨hp, by show 0 ≠ cfg.rxpadding; omega⟩
+    rw [if_pos this, if_pos hp]; rfl
+  · have : ¬ (cfg.desc.rxpadding > 0 ∧ 0 ≠ cfg.desc.rxpadding) := fun h => hp h.1
+    rw [if_neg this, if_neg hp]; rfl
+
+/-! ### non-vacuity of the hypotheses and sample evaluations -/
+
 example : chinfoEncode ⟨true, 0x8a, 3, 200, 1, [0xc3, 0xa9]⟩
     = .ok (wire 3 [1, 0x8a, 3, 200, 1, 0xc3, 0xa9]) := by decide +kernel
 example : ackDecode ⟨4, [0xfe, 0xff, 0xff, 0xff]⟩ = .ok (some (false, -2)) := by decide +kernel
+-- `chinfo_rt`, `chinfo_trailing_nul`, `chinfo_nul_then_rest`: a name with 2-, 3- and 4-byte sequences
+example : (∀ b ∈ ([0xc3, 0xa9, 0xe2, 0x82, 0xac, 0xf0, 0x9f, 0x99, 0x82, 0x20] : Bytes), b ≠ 0) ∧
+    validUtf8 [0xc3, 0xa9, 0xe2, 0x82, 0xac, 0xf0, 0x9f, 0x99, 0x82, 0x20] = true := by decide +kernel
+-- `chinfo_invalid_utf8`: invalid lead byte, stray continuation, truncated, overlong, surrogate,
+-- above U+10FFFF, and bad bytes after the NUL
+example : [[0xff], [0x80], [0xc3], [0xe2, 0x82], [0xc0, 0xaf], [0xe0, 0x80, 0xaf], [0xf0, 0x80, 0x80, 0xaf],
+    [0xed, 0xa0, 0x80], [0xf4, 0x90, 0x80, 0x80], [0xf5, 0x80, 0x80, 0x80], [0x61, 0x00, 0xff]].map validUtf8
+    = List.replicate 11 false := by decide +kernel
+example : chinfoDecode ⟨3, [1, 2, 3, 4, 5, 0x61, 0x00, 0x62, 0x00, 0xff]⟩ = .error .unicodeError := by
+  decide +kernel
+example : chinfoDecode ⟨3, [1, 2, 3, 4, 5, 0x20, 0x61, 0x20, 0x00, 0x62]⟩
+    = .ok (some ⟨true, 2, 3, 4, 5, [0x20, 0x61, 0x20]⟩) := by decide +kernel
+-- `chinfo_rt_text`: "é€🙂 " ; a lone surrogate is not a text
+example : (∀ c ∈ [0xe9, 0x20ac, 0x1f642, 0x20], isScalar c = true) ∧ (∀ c ∈ [0xe9, 0x20ac, 0x1f642, 0x20], c ≠ 0)
+    ∧ utf8Encode [0xe9, 0x20ac, 0x1f642, 0x20]
+      = .ok [0xc3, 0xa9, 0xe2, 0x82, 0xac, 0xf0, 0x9f, 0x99, 0x82, 0x20] := by decide +kernel
+example : utf8Encode [0x61, 0xd800] = .error .unicodeError := by decide +kernel
+-- `devinfo_after_connect`: a configuration satisfying `CfgOk`, and the model's answer on it
+example : Describe.CfgOk ⟨0xe7, 9, [⟨true, 0x8a, 3, 200, 1, [0xc3, 0xa9]⟩, ⟨false, 2, 0, 0, 255, []⟩]⟩ :=
+  ⟨by decide, by decide, by decide, by
+    intro ch hch
+    simp only [List.mem_cons, List.not_mem_nil, or_false] at hch
+    rcases hch with rfl | rfl <;> exact ⟨by decide, by decide, by decide, by decide, by decide, by decide +kernel, by decide⟩⟩
+example : Describe.connectDescribe ⟨0xe7, 9, [⟨true, 0x8a, 3, 200, 1, [0xc3, 0xa9]⟩]⟩
+    = (.connected 1 0xe7 9, .ok ⟨1, 0xe7, 9, true, true, [⟨0, ⟨true, 0x8a, 3, 200, 1, [0xc3, 0xa9]⟩⟩]⟩) := by
+  decide +kernel
 
 end Nxs.C06
